@@ -56,6 +56,7 @@ class Impl:
         from netqasm.sdk.toolbox import get_angle_spec_from_float
 
         self.fn = get_angle_spec_from_float
+        self.repo = repo
         self.default_tol = inspect.signature(get_angle_spec_from_float).parameters["tol"].default
         self.last_pending = None
         self._b = (SubroutineMessage, deserialize_host_msg, deserialize, BaseNetQASMConnection, DebugConnection,
@@ -186,6 +187,69 @@ class Impl:
             settings.set_is_using_hardware(False)
             logging.disable(logging.NOTSET)
         return v if st == "ok" else None
+
+
+    def run_e2e(self, rots, hardware="generic", flush_each=True):
+        """End-to-end leg: the calls on one qubit of a connection of the in-process pipeline
+        (harness/sdk_pipeline.py: real builder -> bytes -> real deserialize -> the package's base Executor),
+        flushed after every call; the `angle` argument the Executor hands to `_do_single_qubit_rotation`
+        is recorded (instance-level wrapper around the hook, which then runs as before).
+        hardware 'generic' (vanilla flavour) or 'nv' (NVHardwareConfig + NVSubroutineTranspiler + NV flavour,
+        simulation mode).  Returns one segment [(mnemonic, n, d, angle)] per call (one segment in all if
+        flush_each is False), or None if anything raised."""
+        import sdk_pipeline as sp
+
+        def go():
+            pipe = sp.Pipeline(self.repo, hardware=hardware)
+            rec = []
+            ex = pipe.executor
+            orig = ex._do_single_qubit_rotation
+
+            def hook(instr, subroutine_id, address, angle):
+                rec.append((instr.mnemonic, int(instr.angle_num.value), int(instr.angle_denom.value), float(angle)))
+                return orig(instr, subroutine_id, address, angle)
+
+            ex._do_single_qubit_rotation = hook
+            from netqasm.sdk.qubit import Qubit
+            segs = []
+            with pipe.connection() as conn:
+                q = Qubit(conn)
+                for r in rots:
+                    a = {k: r[k] for k in ("n", "d", "angle") if k in r and not (k == "angle" and r[k] is None)}
+                    getattr(q, "rot_" + r["axis"])(**a)
+                    if flush_each:
+                        k0 = len(rec)
+                        conn.flush()
+                        segs.append(rec[k0:])
+                if not flush_each:
+                    conn.flush()
+                    segs.append(list(rec))
+            return segs
+
+        import logging
+        logging.disable(logging.CRITICAL)
+        try:
+            st, v = guarded(go)
+        finally:
+            logging.disable(logging.NOTSET)
+        return v if st == "ok" else None
+
+
+def step_angle_ok(n, d, angle):
+    """the angle the executor performs for the operands (n, d) is n*pi/2^d (as a float: relative 2^-51)"""
+    want = F(n, 2 ** d) * PI
+    return abs(F(angle) - want) <= want * F(1, 2 ** 51)
+
+
+def performed_oracle(angle, tol, seg):
+    """requested float angle vs the sum of the angles actually handed to the backend, on the circle:
+    <= tol + 2^-49 + 2^-48 per step (float evaluation of n*pi/2^d, n/2^d < 2)"""
+    total = sum((F(x[3]) for x in seg), F(0))
+    err = circle_dist(total - F(angle))
+    return err <= F(tol) + FE_ALLOW + len(seg) * F(1, 2 ** 48), float(err)
+
+
+SWEEP_D = list(range(0, 32)) + [32, 33, 63, 64, 100, 254, 255]
 
 
 CONFIGS = [("generic", False), ("generic", True), ("nvhw", False), ("nvhw", True), ("nvcompiler", False), ("nvcompiler", True)]
